@@ -34,7 +34,7 @@ type c18Uni struct {
 func c18Universe() *c18Uni {
 	u := &c18Uni{content: map[string][]byte{}, hash: map[string]plumbing.Hash{}, packs: map[string][]byte{}}
 	ms := memory.NewStorage()
-	for _, n := range []string{"init", "l0", "l1", "set", "q0", "q1"} {
+	for _, n := range []string{"init", "l0", "l1", "set", "q0", "q1", "p0"} {
 		u.content[n] = []byte("content of " + n + "\n")
 		o := ms.NewEncodedObject()
 		o.SetType(plumbing.BlobObject)
@@ -44,7 +44,7 @@ func c18Universe() *c18Uni {
 		h, _ := ms.SetEncodedObject(o)
 		u.hash[n] = h
 	}
-	for _, q := range []string{"q0", "q1"} {
+	for _, q := range []string{"q0", "q1", "p0"} {
 		var buf bytes.Buffer
 		if _, err := packfile.NewEncoder(&buf, ms, false).Encode([]plumbing.Hash{u.hash[q]}, 10); err != nil {
 			panic(err)
@@ -66,7 +66,10 @@ type c18Sys struct {
 	pw      map[string]io.WriteCloser
 }
 
-var c18Ops = []string{"OpenLoose(l0)", "WriteClose(l0)", "OpenLoose(l1)", "WriteClose(l1)", "OpenPack(q0)", "WriteClose(q0)", "OpenPack(q1)", "WriteClose(q1)", "SetEncodedObject(set)", "Has(absent)", "Iter(blob)", "ObjectPacks", "Prefix(absent)"}
+var c18Ops = []string{"OpenLoose(l0)", "WriteClose(l0)", "OpenLoose(l1)", "WriteClose(l1)", "OpenPack(q0)", "WriteClose(q0)", "OpenPack(q1)", "WriteClose(q1)", "SetEncodedObject(set)", "Has(absent)", "Iter(blob)", "ObjectPacks", "Prefix(absent)",
+	// lookups of an object BEFORE it is written (whatever they leave behind - a negative answer, a cached
+	// listing - must not hide the object once its write has returned), and cache-wide operations
+	"Probe(l0)", "Probe(q0)", "Probe(set)", "Reindex", "CloseIdle"}
 
 func (s *c18Sys) Apply(k int) (string, string) {
 	name := c18Ops[k]
@@ -125,6 +128,43 @@ func (s *c18Sys) Apply(k int) (string, string) {
 			s.model[arg] = true
 		}
 		return "ok", res(err)
+	case strings.HasPrefix(name, "Probe"):
+		h := s.u.hash[arg]
+		want := "absent"
+		if s.model[arg] {
+			want = "present"
+		}
+		var got []string
+		add := func(ok bool, err error) {
+			switch {
+			case err != nil && !errors.Is(err, plumbing.ErrObjectNotFound):
+				got = append(got, "error("+normErr(err)+")")
+			case ok:
+				got = append(got, "present")
+			default:
+				got = append(got, "absent")
+			}
+		}
+		herr := s.st.HasEncodedObject(h)
+		add(herr == nil, herr)
+		_, serr := s.st.EncodedObjectSize(h)
+		add(serr == nil, serr)
+		_, gerr := s.st.EncodedObject(plumbing.AnyObject, h)
+		add(gerr == nil, gerr)
+		pfx, perr := s.st.HashesWithPrefix(h.Bytes()[:3])
+		in := false
+		for _, x := range pfx {
+			in = in || x == h
+		}
+		add(in, perr)
+		if s.pending[arg] && !s.model[arg] {
+			return "unconstrained", "unconstrained" // a writer is open
+		}
+		return strings.Join([]string{want, want, want, want}, ","), strings.Join(got, ",")
+	case name == "Reindex":
+		return "ok", res(s.st.Reindex())
+	case name == "CloseIdle":
+		return "ok", res(s.st.CloseIdleDescriptors())
 	case name == "Has(absent)":
 		err := s.st.HasEncodedObject(s.u.absent)
 		if errors.Is(err, plumbing.ErrObjectNotFound) {
@@ -149,7 +189,7 @@ func (s *c18Sys) Apply(k int) (string, string) {
 
 func (s *c18Sys) Observe() (string, string) {
 	var exp, got []string
-	names := []string{"init", "l0", "l1", "set", "q0", "q1"}
+	names := []string{"init", "l0", "l1", "set", "q0", "q1", "p0"}
 	iterSeen := map[plumbing.Hash]bool{}
 	if it, err := s.st.IterEncodedObjects(plumbing.BlobObject); err != nil {
 		got = append(got, "iter-error "+normErr(err))
@@ -241,6 +281,11 @@ func runC18(c *fw.Ctx) {
 	c.Bound("ops", c18Ops)
 	c.SetRule("all well-formed histories up to depth over two loose-object writers, two pack writers, SetEncodedObject and cache-filling lookups (Has(absent), Iter, ObjectPacks, Prefix) on a fresh real filesystem storage per history (no state merging: every history is replayed), x {ExclusiveAccess} x {UseInMemoryIdx}; after every history all lookup flavours (has, size, get any/typed with content, type iteration, prefix search) for every object must agree with the set of objects whose write has returned successfully; objects with an open writer are unconstrained; plus, under the controlled scheduler, a PackfileWriter write+close on the instance interleaved at every synchronisation/filesystem point with other threads' first lookups (preemption bound 1/2): the object must be visible to every lookup starting after the write returned; distinct = distinct (configuration, observation) pairs")
 	c.Assume("filesystem = mcfs; single instance, sequential calls")
+	// interleaved variant first (it has a deadline of its own, so the sequential histories cannot starve it):
+	// a pack write on the instance racing with the instance's first index load (every schedule within the
+	// preemption bound, see C23's engine); the written object must be visible to every lookup that starts
+	// after the write returned
+	c23Run(c, "pack(same instance)")
 	u := c18Universe()
 	base := mcfs.NewWorld()
 	{ // initial repository with one loose object
@@ -254,16 +299,80 @@ func runC18(c *fw.Ctx) {
 			fw.Abort("init: %v", err)
 		}
 	}
+	// variant of the initial repository that already holds a pack (object p0): the pack list of the
+	// instance is not empty when the first writer publishes, and lookups walk more than the new pack
+	basePack := base.Clone()
+	{
+		st := filesystem.NewStorage(basePack.View("/g", "g"), cache.NewObjectLRUDefault())
+		pw, err := st.PackfileWriter()
+		if err == nil {
+			_, err = pw.Write(u.packs["p0"])
+			if cerr := pw.Close(); err == nil {
+				err = cerr
+			}
+		}
+		if err != nil {
+			fw.Abort("init pack: %v", err)
+		}
+		st.Close()
+	}
+	// a foreign repository holding every object of the universe: an instance of it shares the object
+	// cache with the instance under test and has read everything (the cache is keyed by hash only)
+	foreign := mcfs.NewWorld()
+	{
+		st := filesystem.NewStorage(foreign.View("/f", "f"), cache.NewObjectLRUDefault())
+		for _, n := range []string{"init", "l0", "l1", "set", "q0", "q1", "p0"} {
+			o := st.NewEncodedObject()
+			o.SetType(plumbing.BlobObject)
+			w, _ := o.Writer()
+			w.Write(u.content[n])
+			w.Close()
+			if _, err := st.SetEncodedObject(o); err != nil {
+				fw.Abort("foreign init: %v", err)
+			}
+		}
+	}
+	newPerHistory := c.Pick(1, 0) // quick: at most one probe/reindex/soft-close per history; thorough: no limit
+	c.Bound("new_ops_per_history(0=unlimited)", newPerHistory)
+	type c18Cfg struct{ excl, mem, initPack, foreignCache bool }
+	cfgList := []c18Cfg{{false, false, false, false}, {true, false, false, false}, {false, false, true, true}, {true, true, false, false},
+		{false, true, false, false}, {true, false, true, true}}
+	c.Bound("configurations", "ExclusiveAccess x UseInMemoryIdx on a repository without packs; ExclusiveAccess x {lazy idx} on a repository with an initial pack and an object cache shared with (and warmed by) an instance of a foreign repository that holds every object")
 	total := histx.Result{}
-	for _, excl := range []bool{false, true} {
-		for _, mem := range []bool{false, true} {
+	// two passes: all configurations to depth-1 first, then all to the full depth, so that a deadline cuts
+	// the deepest level of the last configurations rather than whole configurations
+	c.Bound("passes", []int{depth - 1, depth})
+	for _, passDepth := range []int{depth - 1, depth} {
+		for _, cf := range cfgList {
+			excl, mem := cf.excl, cf.mem
 			cfg := fmt.Sprintf("ExclusiveAccess=%v UseInMemoryIdx=%v", excl, mem)
+			if cf.initPack {
+				cfg += " initial-pack shared-warm-cache"
+			}
+			cf := cf
 			sp := histx.Spec{
-				Name: "C18/" + cfg, OpNames: c18Ops, Depth: depth, NoDedup: true,
+				Name: "C18/" + cfg, OpNames: c18Ops, Depth: passDepth, NoDedup: true,
 				New: func() histx.Sys {
 					w := base.Clone()
-					st := filesystem.NewStorageWithOptions(w.View("/g", "g"), cache.NewObjectLRUDefault(), filesystem.Options{ExclusiveAccess: excl, UseInMemoryIdx: mem})
-					return &c18Sys{u: u, cfg: cfg, w: w, st: st, model: map[string]bool{"init": true}, pending: map[string]bool{}, lw: map[string]io.WriteCloser{}, pw: map[string]io.WriteCloser{}}
+					model := map[string]bool{"init": true}
+					oc := cache.NewObjectLRUDefault()
+					if cf.initPack {
+						w = basePack.Clone()
+						model["p0"] = true
+					}
+					if cf.foreignCache {
+						fst := filesystem.NewStorage(foreign.Clone().View("/f", "f"), oc)
+						for _, h := range u.hash {
+							if o, err := fst.EncodedObject(plumbing.AnyObject, h); err != nil {
+								fw.Abort("foreign read: %v", err)
+							} else if r, err := o.Reader(); err == nil {
+								io.Copy(io.Discard, r)
+								r.Close()
+							}
+						}
+					}
+					st := filesystem.NewStorageWithOptions(w.View("/g", "g"), oc, filesystem.Options{ExclusiveAccess: excl, UseInMemoryIdx: mem})
+					return &c18Sys{u: u, cfg: cfg, w: w, st: st, model: model, pending: map[string]bool{}, lw: map[string]io.WriteCloser{}, pw: map[string]io.WriteCloser{}}
 				},
 				Enabled: func(hist []int, k int) bool {
 					// writers: open once, write-close once after open
@@ -285,6 +394,26 @@ func runC18(c *fw.Ctx) {
 						opened := count("OpenLoose"+arg) + count("OpenPack"+arg)
 						return opened == 1 && count(name) == 0
 					}
+					if isNew := func(n string) bool {
+						return strings.HasPrefix(n, "Probe") || n == "Reindex" || n == "CloseIdle"
+					}; isNew(name) && newPerHistory > 0 {
+						n := 0
+						for _, h := range hist {
+							if isNew(c18Ops[h]) {
+								n++
+							}
+						}
+						if n >= newPerHistory {
+							return false
+						}
+					}
+					if strings.HasPrefix(name, "Probe") {
+						// only while the object is not yet written (afterwards the final observation looks it up anyway)
+						arg := name[len("Probe"):]
+						if count("WriteClose"+arg)+count("SetEncodedObject"+arg) > 0 {
+							return false
+						}
+					}
 					// lookups: not twice in a row
 					return len(hist) == 0 || hist[len(hist)-1] != k
 				},
@@ -293,6 +422,9 @@ func runC18(c *fw.Ctx) {
 				},
 			}
 			res := histx.Run(c, sp)
+			if passDepth != depth {
+				continue
+			}
 			total.States += res.States
 			total.Transitions += res.Transitions
 			if !res.Complete {
@@ -303,10 +435,6 @@ func runC18(c *fw.Ctx) {
 	}
 	c.States(total.States)
 	c.Transitions(total.Transitions)
-	// interleaved variant: a pack write on the instance racing with the instance's first index load
-	// (every schedule within the preemption bound, see C23's engine); the written object must be
-	// visible to every lookup that starts after the write returned
-	c23Run(c, "pack(same instance)")
 }
 
 // c18Shape: which lookup flavours disagree, for which kind of object, after which kind of op
